@@ -104,11 +104,18 @@ Definition law_minres (sp : spec) (xs : list task_extra) (got : res3) : bool :=
           (filter desc_prio (perms l)) &&
   implb (well_formed sp) (Z.eqb (r_pods got) (s_min sp)).
 
+(* exact visiting order: Go's sort.Sort is an insertion sort below 12 elements, hence STABLE there: tasks of
+   equal priority are visited in the order of spec.tasks (whatever their names); with 12 tasks or more
+   only the any-order law applies *)
+Definition law_minres_stable (sp : spec) (xs : list task_extra) (got : res3) : bool :=
+  law_minres sp xs got &&
+  (if Nat.ltb (length (s_tasks sp)) 12 then res_eqb got (calc_min_resources sp xs) else true).
+
 Definition law_pg (sp : spec) (xs : list task_extra) (jobprio : Z) (queue_ok : bool) (g : podgroup) : bool :=
   Z.eqb (g_minmember g) (s_min sp) &&
   forallb (fun t => match tm_get (t_name t) (g_taskmin g) with
                     | Some v => Z.eqb v (min_task_member t) | None => false end) (s_tasks sp) &&
-  Z.eqb (g_prio g) jobprio && queue_ok && law_minres sp xs (g_res g).
+  Z.eqb (g_prio g) jobprio && queue_ok && law_minres_stable sp xs (g_res g).
 
 (* ---------- PodGroup after a reconcile, on observations ---------- *)
 Definition pg_fields_eqb (a b : option podgroup) : bool :=
